@@ -71,6 +71,12 @@ def cases(draw, tier):
         elif draw(st.integers(0, 7)) == 0:
             prog.append({"op": "vcompress", "o": draw(st.integers(0, 9)), "a": draw(st.integers(0, 9)),
                          "method": draw(st.sampled_from(["1site", "2site"])), "small_guess": draw(st.integers(0, 1))})
+        elif not has_qn and draw(st.integers(0, 3)) == 0:
+            if not any(i["op"] == "mpo" for i in prog):
+                prog.append(draw(chain.mpo_instr(spec)))
+            prog.append({"op": "vcompress_sweeps", "o": draw(st.integers(0, 9)), "a": draw(st.integers(0, 9)),
+                         "method": draw(st.sampled_from(["1site", "2site"])), "gm": draw(st.sampled_from([1, 1, 2])),
+                         "rng": draw(st.integers(0, 10 ** 6))})
         else:
             prog.append(draw(chain.gauge_instr(draw(st.sampled_from(["S", "S", "S", "O", "M"])))))
     return {"model": spec, "prog": prog}
@@ -142,6 +148,10 @@ class Hooks:
             else:
                 sites = [(i, i < c) for i in range(n) if i != c]
         elif name == "canonicalise_stop" and n > 1:
+            # the centre ends on the advertised stop site (also when that site already was the centre: nothing moves)
+            r.check("gauge.canonicalise_stop.centre_at_stop", c == ins["stop"] % n,
+                    f"canonicalise(stop_idx={ins['stop'] % n}) left the centre at {c} (sweep started to the "
+                    f"{'right' if before['to_right'] else 'left'}) trace={tr}")
             # sites swept over: between the start end and the new centre
             start = 0 if before["to_right"] else n - 1
             lo, hi = min(start, c), max(start, c)
@@ -264,6 +274,58 @@ class Interp04(chain.Interp):
         check_meta(self, chain.Reg(c, ref, q, "S"), "vcompress")
 
 
+    def i_vcompress_sweeps(self, ins):
+        """convergence of the sweeps themselves: explicit low-bond random guess of the target sector, a long schedule without
+        mixing, tight vrtol; the bond limit is sufficient and the sweeps must grow the bonds until the product is reproduced"""
+        from renormalizer.mps import Mps
+        from renormalizer.utils import CompressConfig, CompressCriteria
+
+        o = self.pick(self.O, ins["o"])
+        a = self.pick(self.S, ins["a"])
+        if o is None or a is None or self.n < 2:
+            return
+        ref = o.model @ a.model
+        nrm = np.linalg.norm(ref)
+        if nrm <= 1e-3 * np.linalg.norm(o.model, 2) * np.linalg.norm(a.model):
+            return
+        has_qn = any(np.any(gen.site_sigmaqn(self.spec, i) != 0) for i in range(self.n))
+        if has_qn:
+            # with symmetry labels an alternating sweep cannot reach a block in which the guess has no weight (zero environment):
+            # convergence from a poor guess is not guaranteed there (observed on the unchanged tree); models without labels only
+            self.r.classes.append("vcompress_sweeps.qn_model_skipped")
+            return
+        method = ins["method"]
+        q = tuple(int(v) for v in (np.array(a.q) + np.array(o.q)))
+        np.random.seed(ins["rng"])
+        try:
+            guess = Mps.random(self.fresh_model(), np.array(q) if len(q) > 1 else int(q[0]), ins["gm"], percent=1.0)
+            g = guess.todense()
+            if not np.all(np.isfinite(g)) or np.linalg.norm(g) == 0:
+                raise FloatingPointError
+        except (FloatingPointError, ZeroDivisionError, ValueError, AssertionError, IndexError):
+            self.r.classes.append("vcompress_sweeps.guess_rejected")
+            return
+        x = a.obj.copy()
+        self._prep_end(x)
+        mpo = o.obj.copy()
+        self._prep_end(mpo)
+        if (x.is_complex or mpo.is_complex) and not guess.is_complex:
+            guess = guess.to_complex()
+        M = 64
+        guess.compress_config = CompressConfig(CompressCriteria.fixed, max_bonddim=M, vmethod=method,
+                                               vprocedure=[[M, 0]] * (4 * self.n + 10), vrtol=1e-10)
+        ok, c = self.guard("vcompress_sweeps", x.variational_compress, mpo, guess=guess)
+        if not ok:
+            return
+        self.r.classes.append(f"vcompress_sweeps.{method}")
+        got = chain.dense_of(c)
+        err = np.linalg.norm(got - ref) / nrm
+        self.r.resid("vcompress_sweeps.rel_err", err, 1e-6)
+        self.r.check("vcompress_sweeps.result", err <= 1e-6,
+                     f"variational_compress({method}) from a bond-{ins['gm']} random guess, schedule without mixing: rel. error {err:.3e} "
+                     f"(bond dims {list(c.bond_dims)}) trace={self.trace[-6:]}")
+
+
 class C04(Prop):
     id = "C04"
     rule = ("Hypothesis draws a model (1-6 sites) and a program: constructors, optional arithmetic that creates redundant / "
@@ -279,7 +341,7 @@ class C04(Prop):
                    "variational compression: fixed bond limit 64 >= exact ranks, tolerance 1e-5*norm (library vrtol 1e-5)"]
 
     def budget(self, tier):
-        return dict(examples=800, shards=16) if tier == "quick" else dict(examples=20000, shards=16)
+        return dict(examples=2400, shards=16) if tier == "quick" else dict(examples=60000, shards=16)
 
     def strategy(self, tier):
         return cases(tier)
